@@ -392,3 +392,176 @@ Section Keys.
     rewrite G. change (rt_keys rt_empty) with (@nil key). cbn [In]. split; [intros [[]|Hx]; exact Hx|intro Hx; right; exact Hx].
   Qed.
 End Keys.
+
+(** * Placement: an insertion appends its message to the list found at its path and changes the list at no other path *)
+Fixpoint es_get (k : key) (es : list (key * (list msg * rtree))) : option (list msg * rtree) :=
+  match es with
+  | [] => None
+  | (k', e) :: r => if key_eqb k k' then Some e else es_get k r
+  end.
+
+Definition es_get_d (k : key) es : list msg * rtree :=
+  match es_get k es with Some e => e | None => ([], rt_empty) end.
+
+(* the list of messages at a document path: path[:-1] walks through the trailing dicts, path[-1] selects the list *)
+Fixpoint rt_msgs (p : path) (t : rtree) {struct p} : list msg :=
+  match p with
+  | [] => []
+  | k :: p' =>
+      match p' with
+      | [] => fst (es_get_d k (rt_entries t))
+      | _ :: _ => rt_msgs p' (snd (es_get_d k (rt_entries t)))
+      end
+  end.
+
+Lemma es_get_update_same k f es : es_get k (rt_update k f es) = Some (f (es_get_d k es)).
+Proof.
+  unfold es_get_d. induction es as [|[k' e] r IH]; cbn [rt_update es_get].
+  - rewrite key_eqb_refl. reflexivity.
+  - destruct (key_eqb k k') eqn:E; cbn [es_get]; rewrite E; [reflexivity|exact IH].
+Qed.
+
+Lemma es_get_update_other k k2 f es : k2 <> k -> es_get k2 (rt_update k f es) = es_get k2 es.
+Proof.
+  intro Hne. induction es as [|[k' e] r IH]; cbn [rt_update es_get].
+  - apply key_eqb_neq in Hne. rewrite Hne. reflexivity.
+  - destruct (key_eqb k k') eqn:E; cbn [es_get].
+    + apply key_eqb_eq in E. subst k'. apply key_eqb_neq in Hne. rewrite Hne. reflexivity.
+    + rewrite IH. reflexivity.
+Qed.
+
+
+Lemma rt_msgs_single k t : rt_msgs [k] t = fst (es_get_d k (rt_entries t)).
+Proof. reflexivity. Qed.
+Lemma rt_msgs_cons2 k k2 p t : rt_msgs (k :: k2 :: p) t = rt_msgs (k2 :: p) (snd (es_get_d k (rt_entries t))).
+Proof. reflexivity. Qed.
+Lemma es_get_d_update_same k f es : es_get_d k (rt_update k f es) = f (es_get_d k es).
+Proof. unfold es_get_d at 1. rewrite es_get_update_same. reflexivity. Qed.
+Lemma es_get_d_update_other k k2 f es : k2 <> k -> es_get_d k2 (rt_update k f es) = es_get_d k2 es.
+Proof. intro H. unfold es_get_d. rewrite es_get_update_other by exact H. reflexivity. Qed.
+
+Lemma rt_msgs_empty p : rt_msgs p rt_empty = [].
+Proof. induction p as [|k p IH]; [reflexivity|]. destruct p as [|k2 p']; [reflexivity|]. rewrite rt_msgs_cons2. exact IH. Qed.
+
+Theorem rt_insert_msgs_same : forall p m t, p <> [] -> rt_msgs p (rt_insert p m t) = rt_msgs p t ++ [m].
+Proof.
+  induction p as [|k p IH]; intros m [es] Hne; [contradiction|].
+  destruct p as [|k2 p'].
+  - rewrite rt_insert_single, !rt_msgs_single. cbn [rt_entries]. rewrite es_get_d_update_same. reflexivity.
+  - rewrite rt_insert_cons2, !rt_msgs_cons2. cbn [rt_entries]. rewrite es_get_d_update_same. cbn [snd].
+    apply IH. discriminate.
+Qed.
+
+Theorem rt_insert_msgs_other : forall p q m t, q <> p -> rt_msgs q (rt_insert p m t) = rt_msgs q t.
+Proof.
+  induction p as [|k p IH]; intros q m [es] Hne; [reflexivity|].
+  destruct q as [|k' q']; [reflexivity|].
+  destruct (key_eqb k' k) eqn:E.
+  - apply key_eqb_eq in E. subst k'.
+    destruct p as [|k2 p'].
+    + rewrite rt_insert_single.
+      destruct q' as [|k3 q'']; [contradiction Hne; reflexivity|].
+      rewrite !rt_msgs_cons2. cbn [rt_entries]. rewrite es_get_d_update_same. reflexivity.
+    + rewrite rt_insert_cons2.
+      destruct q' as [|k3 q''].
+      * rewrite !rt_msgs_single. cbn [rt_entries]. rewrite es_get_d_update_same. reflexivity.
+      * rewrite !rt_msgs_cons2. cbn [rt_entries]. rewrite es_get_d_update_same. cbn [snd].
+        apply IH. intro H. apply Hne. rewrite H. reflexivity.
+  - apply key_eqb_neq in E.
+    destruct p as [|k2 p']; [rewrite rt_insert_single|rewrite rt_insert_cons2];
+      (destruct q' as [|k3 q'']; [rewrite !rt_msgs_single|rewrite !rt_msgs_cons2]; cbn [rt_entries];
+       rewrite es_get_d_update_other by exact E; reflexivity).
+Qed.
+
+Definition key_dec (a b : key) : {a = b} + {a <> b}.
+Proof. destruct (key_eqb a b) eqn:E; [left; apply key_eqb_eq; exact E|right; apply key_eqb_neq; exact E]. Defined.
+Definition path_dec : forall p q : path, {p = q} + {p <> q} := list_eq_dec key_dec.
+
+Lemma rt_insert_msgs p q m t : p <> [] ->
+  rt_msgs q (rt_insert p m t) = rt_msgs q t ++ (if path_dec q p then [m] else []).
+Proof.
+  intro Hne. destruct (path_dec q p) as [->|Hq].
+  - apply rt_insert_msgs_same. exact Hne.
+  - rewrite app_nil_r. apply rt_insert_msgs_other. exact Hq.
+Qed.
+
+Section Placement.
+  Variable F : facts.
+  Local Notation M := (f_masks F).
+
+  (* the messages the insertion of e adds to the list at path q, in order -- by the recursion of insert_err *)
+  Fixpoint msgs_at (fuel : nat) (kind : nat) (pf : option key) (e : error) (q : path) : list msg :=
+    match fuel with
+    | O => []
+    | S f =>
+        let here m := if path_dec q (e_dp e) then [m] else [] in
+        if is_logic M e then
+          here (mk_msg (last_key (e_dp e)) e) ++ flat_map (fun c => msgs_at f 2 (last_key (e_dp e)) c q) (child_errors M e)
+        else if is_group M e then flat_map (fun c => msgs_at f 1 None c q) (child_errors M e)
+        else match kind with
+             | O => if has_message F (e_code e) then here (mk_msg (last_key (e_dp e)) e) else []
+             | 1%nat => here (mk_msg (last_key (e_dp e)) e)
+             | _ => here (mk_msg pf e)
+             end
+    end.
+
+  Lemma fold_insert_msgs f kind pf q : forall cs t,
+    (forall c t, In c cs -> rt_msgs q (insert_err F f kind pf c t) = rt_msgs q t ++ msgs_at f kind pf c q) ->
+    rt_msgs q (fold_left (fun t c => insert_err F f kind pf c t) cs t) =
+    rt_msgs q t ++ flat_map (fun c => msgs_at f kind pf c q) cs.
+  Proof.
+    induction cs as [|c cs IH]; intros t H; cbn [fold_left flat_map]; [rewrite app_nil_r; reflexivity|].
+    rewrite IH by (intros c' t' Hc'; apply H; right; exact Hc').
+    rewrite (H c t (or_introl eq_refl)). rewrite app_assoc. reflexivity.
+  Qed.
+
+  Lemma insert_msgs : forall fuel kind pf e t q,
+    paths_ok F fuel e -> rt_msgs q (insert_err F fuel kind pf e t) = rt_msgs q t ++ msgs_at fuel kind pf e q.
+  Proof.
+    induction fuel as [|f IH]; intros kind pf e t q Hp; [cbn [insert_err msgs_at]; rewrite app_nil_r; reflexivity|].
+    cbn [paths_ok] in Hp. destruct Hp as [Hne Hch]. cbn [insert_err msgs_at].
+    assert (Hc : forall kind' pf' c t', In c (child_errors M e) ->
+              rt_msgs q (insert_err F f kind' pf' c t') = rt_msgs q t' ++ msgs_at f kind' pf' c q).
+    { intros kind' pf' c t' Hc. apply IH. rewrite Forall_forall in Hch. apply Hch. exact Hc. }
+    destruct (is_logic M e).
+    - rewrite fold_insert_msgs by (intros c t' Hi; apply Hc; exact Hi).
+      rewrite rt_insert_msgs by exact Hne. rewrite app_assoc. reflexivity.
+    - destruct (is_group M e).
+      + apply fold_insert_msgs. intros c t' Hi. apply Hc. exact Hi.
+      + destruct kind as [|[|kk]].
+        * destruct (has_message F (e_code e)); [apply rt_insert_msgs; exact Hne|rewrite app_nil_r; reflexivity].
+        * apply rt_insert_msgs. exact Hne.
+        * apply rt_insert_msgs. exact Hne.
+  Qed.
+
+  Theorem add_error_msgs e t q :
+    e_dp e <> [] ->
+    rt_msgs q (add_error F t e) =
+    rt_msgs q t ++ msgs_at (S (err_depth e)) 0 None (rewrite F (S (err_depth e)) 0 e) q.
+  Proof. intro Hne. unfold add_error. apply insert_msgs. apply rewrite_paths_ok. exact Hne. Qed.
+
+  (* the list found at ANY path of the errors property is, in order, what the recorded errors (after the path
+     rewriting of their children) place there -- nothing else, nothing missing *)
+  Theorem render_msgs : forall errs q, Forall (fun e => e_dp e <> []) errs ->
+    rt_msgs q (fst (render F errs)) =
+    flat_map (fun e => msgs_at (S (err_depth e)) 0 None (rewrite F (S (err_depth e)) 0 e) q) errs.
+  Proof.
+    intros errs q H. unfold render. cbn [fst].
+    rewrite <- (app_nil_l (flat_map _ errs)). rewrite <- (rt_msgs_empty q). generalize rt_empty.
+    induction H as [|e errs He _ IH]; intro t; cbn [fold_left flat_map]; [rewrite app_nil_r; reflexivity|].
+    rewrite IH. rewrite add_error_msgs by exact He. rewrite app_assoc. reflexivity.
+  Qed.
+
+
+  (* a non-group error with a message template is rendered as one message in the list at exactly its document path *)
+  Theorem leaf_error_placed e t :
+    is_logic (f_masks F) e = false -> is_group (f_masks F) e = false -> has_message F (e_code e) = true ->
+    e_dp e <> [] ->
+    rt_msgs (e_dp e) (add_error F t e) = rt_msgs (e_dp e) t ++ [mk_msg (last_key (e_dp e)) e] /\
+    (forall q, q <> e_dp e -> rt_msgs q (add_error F t e) = rt_msgs q t).
+  Proof.
+    intros Hl Hg Hm Hne. unfold add_error.
+    cbn [rewrite]. rewrite Hl, Hg. cbn [insert_err]. rewrite Hl, Hg, Hm.
+    split; [apply rt_insert_msgs_same; exact Hne|intros q Hq; apply rt_insert_msgs_other; exact Hq].
+  Qed.
+End Placement.
